@@ -364,6 +364,30 @@ theorem arrSet_sep {h0 h : Heap} (sep : Sep h0 h) {n : Nat} (hn : h0.length ≤ 
       · exact sep
     · exact sep
 
+theorem refs_insert_weak {k : String} {v : Ref} (hv : ∀ x, v ≠ .addr x) {items : Items} {P : Nat → Prop} (hg : ∀ x ∈ refsOf (.dict items), P x) :
+    ∀ x ∈ refsOf (.dict (insert k v items)), P x := by
+  intro x hx
+  rcases refs_insert hx with h | h
+  · exact absurd h (hv x)
+  · exact hg x h
+
+theorem readInfos_sep {h0 h : Heap} (sep : Sep h0 h) {n : Nat} (hn : h0.length ≤ n) : Sep h0 (readInfos h n).1 := by
+  have key : ∀ t, Sep h0 (getInfos t h n).1 := by
+    intro t
+    unfold getInfos
+    split
+    · exact sep
+    · rename_i s hs
+      obtain ⟨_, hd, hg⟩ := newSV sep hn hs
+      split
+      · exact sep
+      · exact (sep.al .clone (by simp [refsOf])).wr hd _ (refs_insert_weak (by intro x; simp) hg)
+  have := key infosTest
+  unfold readInfos
+  split
+  · rename_i h2 o he; rw [he] at this; exact this
+  · rename_i h2 he; rw [he] at this; exact this
+
 /-! ### `copy.deepcopy` -/
 
 /-- `obj._data["maneuvers"] = r` on an object that is `Good` (new as soon as it is a state vector) with `r` new -/
